@@ -192,11 +192,11 @@ class Hostile:
         return self.new_bidi()
 
     # ---- header lists and blocks
-    def fields(self, valid_only=False):
+    def fields(self, valid_only=False, push=False):
         """(fields, tag) ; tag 'valid' or the kind of defect"""
         hf = self.hf
-        request = not self.tc
-        base = gen_request_headers(hf) if request else gen_response_headers(hf)
+        request = push or not self.tc
+        base = gen_request_headers(hf, full=push) if request else gen_response_headers(hf)
         k = 0 if valid_only else hf.weighted([4, 1, 1, 1, 2.5, 1, 1, 1, 1, 1, 0.5, 1, 0.5, 0.7, 1])
         if k == 0:
             return base, "valid"
@@ -241,10 +241,10 @@ class Hostile:
             return base + [(b"x-a", b"v")] * (50 + hf.choose(400)), "many-fields"
         return [(b"x-a", b"v")] + base, "pseudo-after-regular"
 
-    def block(self, sid, valid_only=False):
+    def block(self, sid, valid_only=False, push=False):
         """an encoded field section for stream sid"""
         hf = self.hf
-        fields, tag = self.fields(valid_only)
+        fields, tag = self.fields(valid_only, push)
         self.count("fields_" + tag)
         big = sum(len(k) + len(v) + 8 for k, v in fields) > 3000 or len(fields) > 60
         how = 1 if big else (0 if valid_only else hf.weighted([6, 3, 1, 1, 1]))
@@ -328,7 +328,7 @@ class Hostile:
         elif ftype == F_SETTINGS:
             body = self.settings_payload()
         elif ftype == F_PUSH_PROMISE:
-            body = self.varint_payload() + self.block(sid)
+            body = self.varint_payload() + self.block(sid, push=True)
         elif ftype in (F_MAX_PUSH_ID, F_CANCEL_PUSH, F_GOAWAY, F_DUPLICATE_PUSH):
             body = self.varint_payload()
         elif ftype == F_PRIORITY:
@@ -710,15 +710,25 @@ def execute(seed, mode, is_client, wt, n_requests, schedule, with_logger, cfg):
     now = t.now + 0.001
     quic.datagrams_to_send(now=now)
 
+    peer_addr = CLIENT_ADDR if is_client else SERVER_ADDR
+
     def transmit(stage):
         try:
-            return quic.datagrams_to_send(now=now)
+            dgrams = quic.datagrams_to_send(now=now)
         except Exception as exc:
             raise Violation("c16.transmit", where(exc),
                             "datagrams_to_send raised %r %s (%s; HTTP layer close: %s)" % (
                                 exc, stage, tag, _close_brief(rep.closed)))
+        # the peer sees what is sent (probe only: parsing it is the transport's business, C05)
+        for data, _addr in dgrams:
+            try:
+                t.peer.receive_datagram(data, peer_addr, now=now)
+            except Exception:
+                rep.log.append("peer raised on a packet")
+        return dgrams
 
     ended = set()
+    close_sent = False
     for i, d in enumerate(schedule):
         if d[0] == "s":
             if d[1] in ended:
@@ -747,33 +757,29 @@ def execute(seed, mode, is_client, wt, n_requests, schedule, with_logger, cfg):
         for e in out:
             n = type(e).__name__
             rep.events[n] = rep.events.get(n, 0) + 1
-        if cfg["transmit_each"] or (rep.closed is not None and not rep.log):
+        if cfg["transmit_each"] or (rep.closed is not None and not close_sent):
             now += 0.0005
             transmit("after event #%d" % i)
             if rep.closed is not None:
-                rep.log.append("closing packet sent")
+                close_sent = True
     # end of the script: whatever state the HTTP layer left the transport in must still be drivable
     now += 0.001
-    dgrams = transmit("after the last event")
+    transmit("after the last event")
     if rep.closed is None:
         quic.close(error_code=0x100, reason_phrase="")  # application shuts down (H3_NO_ERROR)
         rep.closed = None
-        dgrams = transmit("after an ordinary close")
-    # the peer sees the closing packet (probe only: parsing it is the transport's business)
-    for data, _addr in dgrams:
-        try:
-            t.peer.receive_datagram(data, CLIENT_ADDR if is_client else SERVER_ADDR, now=now)
-        except Exception:
-            rep.log.append("peer raised on the closing packet")
-    while True:
-        try:
+        transmit("after an ordinary close")
+    try:  # probe only: which close does the peer's transport report once its draining period is over
+        tm = t.peer.get_timer()
+        if tm is not None:
+            t.peer.handle_timer(now=max(now, tm) + 1e-6)
+        ev = t.peer.next_event()
+        while ev is not None:
+            if type(ev).__name__ == "ConnectionTerminated":
+                rep.peer_code = ev.error_code
             ev = t.peer.next_event()
-        except Exception:
-            break
-        if ev is None:
-            break
-        if type(ev).__name__ == "ConnectionTerminated":
-            rep.peer_code = ev.error_code
+    except Exception:
+        rep.log.append("peer raised")
     try:
         for _ in range(12):
             ev = quic.next_event()
